@@ -333,3 +333,13 @@ def c12_delta_empty_page(case, out):
     src, inner = _c12_inner(case)
     return src == "C03" and any(n == 0 for n in _c12_delta_pages(inner)) and \
         any(f in out["sig"] for f in ("delta", "read_unsigned_var_int", "NumpyIO", "crash"))
+
+
+@predicate
+def c14_categorical_dictionaries(case, out):
+    """Same root cause as C07-categorical-dictionaries: one dictionary per row group / file, labels resolved through the last one."""
+    sig = out["sig"]
+    if not (sig.startswith(("value|category", "celltype|category")) or ("open_or_read_raised" in sig and ("IndexError" in sig or "RuntimeError" in sig))):
+        return False
+    from vf.finding_predicates import _cat_lists_differ
+    return _cat_lists_differ(case["files"])
